@@ -191,4 +191,8 @@ def runHist {σ Q O : Type} (getters : List (String × List String)) (eff : Nat 
 and `noise=None` is "no call-time noise". -/
 def memberCall {N : Type} (entry : Option (Option N)) : Option N := entry.join
 
+/-- `FixedGaussianNoise._apply(fn)` (`.to()`, `.double()`, `.float()`, `.cpu()`, …): the stored noise becomes `fn(noise)` —
+nothing else; in particular it is not rounded up to `settings.min_fixed_noise` again. -/
+def fixedApply (fn : α → α) (stored : Array α) : Array α := stored.map fn
+
 end Noise
